@@ -62,7 +62,7 @@ const (
 // scope (a): meshes
 // ---------------------------------------------------------------------------------------------
 
-var nmodesAlarmed = []string{"none", "unit", "nonunit"}
+var nmodesAlarmed = []string{"none", "unit", "nonunit", "same-nonunit", "same-unit"}
 var nmodesReported = []string{"zero", "cancel"}
 
 // normalFor gives vertex i its normal in the given mode. "zero": all normals vanish (every facet
@@ -76,6 +76,10 @@ func normalFor(mode string, i int) vector3.Float64 {
 		return v
 	case "unit":
 		return v.Normalized()
+	case "same-nonunit":
+		return vector3.New(0.6, -0.8, 2.4) // every vertex carries the same normal (flat shading), not of unit length
+	case "same-unit":
+		return vector3.New(0.6, 0., -0.8)
 	case "zero":
 		return vector3.New(0., 0., 0.)
 	case "cancel":
